@@ -382,6 +382,74 @@ fn shape(hist: &[Act], upto: usize) -> String {
     s.trim().to_string()
 }
 
+const INDEP_A2ML: &str = "block \"IF_DATA\" taggedunion { \"ZZ\" uint; };";
+
+fn indep_targets() -> Vec<(&'static str, String)> {
+    let a2ml = INDEP_A2ML;
+    vec![
+            ("three lists", "/begin MEASUREMENT s_a \"\" UBYTE NO_COMPU_METHOD 0 0 0 255 /end MEASUREMENT\n/begin MEASUREMENT s_b \"\" UBYTE NO_COMPU_METHOD 0 0 0 255 /end MEASUREMENT\n/begin COMPU_METHOD s_c \"\" IDENTICAL \"%6.2\" \"\" /end COMPU_METHOD\n/begin GROUP s_g \"\" /end GROUP\n".to_string()),
+            ("empty", String::new()),
+            ("own MOD_COMMON", "/begin MOD_COMMON \"\" /end MOD_COMMON\n/begin MEASUREMENT s_a \"\" UBYTE NO_COMPU_METHOD 0 0 0 255 /end MEASUREMENT\n/begin UNIT s_u \"\" \"\" DERIVED /end UNIT\n".to_string()),
+            ("own A2ML and IF_DATA", format!("/begin A2ML {a2ml} /end A2ML\n/begin IF_DATA ZZ 1 /end IF_DATA\n/begin MEASUREMENT s_a \"\" UBYTE NO_COMPU_METHOD 0 0 0 255 /end MEASUREMENT\n")),
+    ]
+}
+
+fn indep_fronts() -> Vec<(&'static str, String)> {
+    let a2ml = INDEP_A2ML;
+    vec![
+            ("a module with A2ML, MOD_COMMON and MOD_PAR", format!("/begin MODULE f \"\"\n/begin A2ML {a2ml} /end A2ML\n/begin MOD_COMMON \"\" /end MOD_COMMON\n/begin MOD_PAR \"\" /end MOD_PAR\n/begin MEASUREMENT f_a \"\" UBYTE NO_COMPU_METHOD 0 0 0 255 /end MEASUREMENT\n/end MODULE\n")),
+            ("a module with lists only", "/begin MODULE f \"\"\n/begin MEASUREMENT f_a \"\" UBYTE NO_COMPU_METHOD 0 0 0 255 /end MEASUREMENT\n/begin GROUP f_g \"\" /end GROUP\n/begin UNIT f_u \"\" \"\" DERIVED /end UNIT\n/end MODULE\n".to_string()),
+            ("an empty module", "/begin MODULE f \"\"\n/end MODULE\n".to_string()),
+    ]
+}
+
+        // one step = the subset of {A2ML, MOD_COMMON, MOD_PAR, push MEASUREMENT, push GROUP, push UNIT} that appears, then a call
+fn indep_run(g: &Grammar, project_body: &str, idx: usize, steps: &[u8]) -> Result<Vec<(String, String)>, String> {
+            let a2ml = INDEP_A2ML;
+            let text = format!("ASAP2_VERSION 1 71\n/begin PROJECT p \"\"\n{project_body}/end PROJECT\n");
+            let Loaded::Ok(mut f, _) = load(&text, None, false) else { return Err("machinery: start file does not load".into()) };
+            let mut n = 0;
+            for st in steps {
+                guard(std::panic::AssertUnwindSafe(|| {
+                    let m = &mut f.project.module[idx];
+                    if st & 1 != 0 && m.a2ml.is_none() {
+                        m.a2ml = Some(a2lfile::A2ml::new(a2ml.to_string()));
+                    }
+                    if st & 2 != 0 && m.mod_common.is_none() {
+                        m.mod_common = Some(a2lfile::ModCommon::new("".to_string()));
+                    }
+                    if st & 4 != 0 && m.mod_par.is_none() {
+                        m.mod_par = Some(a2lfile::ModPar::new("".to_string()));
+                    }
+                    if st & 8 != 0 {
+                        n += 1;
+                        m.measurement.push(a2lfile::Measurement::new(format!("n_m{n}"), "".to_string(), a2lfile::DataType::Ubyte, "NO_COMPU_METHOD".to_string(), 0, 0.0, 0.0, 255.0));
+                    }
+                    if st & 16 != 0 {
+                        n += 1;
+                        m.group.push(a2lfile::Group::new(format!("n_g{n}"), "".to_string()));
+                    }
+                    if st & 32 != 0 {
+                        n += 1;
+                        m.unit.push(a2lfile::Unit::new(format!("n_u{n}"), "".to_string(), "".to_string(), a2lfile::UnitType::Derived));
+                    }
+                    f.sort_new_items();
+                }))
+                .map_err(|p| format!("panic: {p}"))?;
+            }
+            let t = guard(|| f.write_to_string()).map_err(|p| format!("panic: {p}"))?;
+            let mods = module_order(g, &t).map_err(|e| format!("output-invalid: {e}"))?;
+            mods.get(idx).cloned().ok_or_else(|| "machinery: module missing in the output".to_string())
+}
+
+fn indep_case(g: &Grammar, ti: usize, fi: usize, plan: &[u8]) -> Result<(Vec<(String, String)>, Vec<(String, String)>), String> {
+    let (targets, fronts) = (indep_targets(), indep_fronts());
+    let own = format!("/begin MODULE s \"\"\n{}/end MODULE\n", targets[ti].1);
+    let alone = indep_run(g, &own, 0, plan)?;
+    let behind = indep_run(g, &format!("{}{own}", fronts[fi].1), 1, plan)?;
+    Ok((alone, behind))
+}
+
 pub fn run(tier: &str) -> Run {
     let mut run = Run::new("C15", tier);
     let thorough = tier == "thorough";
@@ -603,7 +671,61 @@ pub fn run(tier: &str) -> Run {
     run.require("all-sequences: stable", 1000);
     run.require("long-history: stable", 1000);
     run.extra.insert("bounds".into(), json!({"all_sequences_depth": depth, "long_history_length": len, "actions": acts.len(), "starts": starts.len()}));
-    run.rule = "state = the real A2lFile; actions = sort_new_items (S), push a builder-made element of 6 kinds (P), merge one of 5 small modules (three with fresh names, two that also hold same-name elements with other content, same-name identical elements and a same-name GROUP) (M); an element counts as new from the moment it appears until the next S, whatever position key it carries. (i) every action sequence of depth d from 5 start files (one with a second module whose children must keep their order throughout), observed after each step; (ii) histories of S of length L with at most two other actions at every pair of positions; a file with two elements of each of the 20 list kinds and, per kind, histories that push new elements of that kind between calls; (iii) 64 consecutive S on files with 1..1000 elements and on 54 files in which three kinds appear in every order in blocks of 2..40 with IF_DATA / USER_RIGHTS in front; insert/sort cycles (40, thorough 200); 2 and 5 new elements of one kind per cycle for 12 (24) cycles on a file with 30+30 elements. Observation: the order of the module's children in write_to_string (reference interpreter). Oracle: relative order of placed elements never changes; after S each new element sits in the run directly behind the last placed element of its kind (behind all placed elements if there is none); no panic / overflow.".into();
+    // (iv) module independence: where the new elements of a module go is a matter of that module's own elements. The same module
+    // text with the same history of assignments / pushes / calls, alone in its project and behind each of three other modules,
+    // must be written with its children in the same order (no expected order is written down)
+    {
+        let (targets, fronts) = (indep_targets(), indep_fronts());
+        let mut plans: Vec<Vec<u8>> = (1..64u8).map(|s| vec![s]).collect();
+        for a in [1u8, 2, 4, 8, 16] {
+            for b in [1u8, 2, 4, 8, 32] {
+                if a != b {
+                    plans.push(vec![a, b]);
+                    plans.push(vec![a, b, 63]);
+                }
+            }
+        }
+        let mut jobs: Vec<(usize, usize, usize)> = Vec::new();
+        for ti in 0..targets.len() {
+            for fi in 0..fronts.len() {
+                for pi in 0..plans.len() {
+                    jobs.push((ti, fi, pi));
+                }
+            }
+        }
+        let ires = par_map(
+            jobs.len(),
+            &|j| {
+                let (ti, fi, pi) = jobs[j];
+                indep_case(&g, ti, fi, &plans[pi])
+            },
+            &|j| {
+                println!("MACHINERY-ERROR: C15 module-independence case hangs: {:?}", jobs[j]);
+                std::process::exit(2);
+            },
+        );
+        for (j, r) in ires.into_iter().enumerate() {
+            let (ti, fi, pi) = jobs[j];
+            run.evaluations += 1;
+            run.transitions += 2 * plans[pi].len() as u64;
+            run.states.insert(fnv1a(format!("indep|{ti}|{fi}|{:?}", plans[pi]).as_bytes()));
+            let label = format!("module [{}] with steps {:?} alone and behind {}", targets[ti].0, plans[pi], fronts[fi].0);
+            match r {
+                Err(m) if m.starts_with("machinery") => run.machinery(format!("{label}: {m}")),
+                Err(p) => run.violation(format!("C15/{}/module-independence", if p.starts_with("panic") { format!("panic {}", vcore::explore::panic_key(p.trim_start_matches("panic: "))) } else { "output-invalid".into() }), format!("{label}: {p}"), json!({"independence": [ti, fi, plans[pi]]})),
+                Ok((alone, behind)) => {
+                    if alone == behind {
+                        run.outcome("module independence: same order alone and behind another module");
+                    } else {
+                        let f = |v: &Vec<(String, String)>| v.iter().map(|(t, n)| if n.is_empty() { t.clone() } else { n.clone() }).collect::<Vec<_>>().join(" ");
+                        run.violation(format!("C15/placement-depends-on-another-module/{}", fronts[fi].0.replace(' ', "-")), format!("{label}: alone [{}], behind the other module [{}]", f(&alone), f(&behind)), json!({"independence": [ti, fi, plans[pi]]}));
+                    }
+                }
+            }
+        }
+        run.require("module independence: same order alone and behind another module", 500);
+    }
+    run.rule = "state = the real A2lFile; actions = sort_new_items (S), push a builder-made element of 6 kinds (P), merge one of 5 small modules (three with fresh names, two that also hold same-name elements with other content, same-name identical elements and a same-name GROUP) (M); an element counts as new from the moment it appears until the next S, whatever position key it carries. (i) every action sequence of depth d from 5 start files (one with a second module whose children must keep their order throughout), observed after each step; (ii) histories of S of length L with at most two other actions at every pair of positions; a file with two elements of each of the 20 list kinds and, per kind, histories that push new elements of that kind between calls; (iii) 64 consecutive S on files with 1..1000 elements and on 54 files in which three kinds appear in every order in blocks of 2..40 with IF_DATA / USER_RIGHTS in front; insert/sort cycles (40, thorough 200); 2 and 5 new elements of one kind per cycle for 12 (24) cycles on a file with 30+30 elements. Observation: the order of the module's children in write_to_string (reference interpreter). Oracle: relative order of placed elements never changes; after S each new element sits in the run directly behind the last placed element of its kind (behind all placed elements if there is none); no panic / overflow. (iv) module independence: 4 module texts x 3 modules in front x 103 plans of assignments of A2ML / MOD_COMMON / MOD_PAR and pushes of three kinds, each followed by S: the module's children are written in the same order alone and behind the other module.".into();
     run
 }
 
@@ -617,6 +739,12 @@ fn act_str(a: &Act) -> String {
 
 pub fn replay(v: &Value) -> Result<String, String> {
     let g = crate::corpus::grammar();
+    if let Some(a) = v["independence"].as_array() {
+        let (ti, fi) = (a[0].as_u64().unwrap_or(0) as usize, a[1].as_u64().unwrap_or(0) as usize);
+        let plan: Vec<u8> = a[2].as_array().map(|p| p.iter().filter_map(|x| x.as_u64().map(|y| y as u8)).collect()).unwrap_or_default();
+        let (alone, behind) = indep_case(&g, ti, fi, &plan)?;
+        return if alone == behind { Ok("same order alone and behind another module".into()) } else { Err(format!("placement-depends-on-another-module: alone {alone:?}, behind {behind:?}")) };
+    }
     let start = v["start"].as_str().ok_or("no start")?;
     let hist: Vec<Act> = v["history"]
         .as_array()
